@@ -58,6 +58,8 @@ void Exec::op_esolver(Client &c) {
 	bool missing = op->i("missing", 0) != 0; if (missing) path = "/sim/nosuch.lp";
 	bool lpfmt = info.fmt == "LP";
 	std::string sol = "/sim/out" + std::to_string(step) + ".sol" + COMP_EXT_SOL[modn(op->i("solcomp", 0), 3)];
+	if (op->i("longsol", 0)) sol = "/sim/" + std::string((size_t)(1010 + modn(op->i("longsol"), 200)), 'o') + std::to_string(step) + ".sol";   // a long, perfectly legal output name
+	if (op->i("hibyte", 0) && !missing && world.files.count(path)) { std::string p2 = path; size_t sl = p2.rfind('/'); p2.insert(sl + 1, "d\xc3\xa9j\xc3\xa0_"); world.files[p2] = world.files[path]; files[p2] = info; path = p2; }   // a file name with bytes above 127
 	std::vector<std::string> args = {"esolver"};
 	// -L forces LP; without it the format is chosen by extension
 	if (lpfmt && op->i("forceL", 0)) args.push_back("-L");
@@ -72,6 +74,7 @@ void Exec::op_esolver(Client &c) {
 	args.push_back(path);
 	if (const Fault *f = op->fault("io.open_fail")) { FileFaults ff; static const int e[] = {ENOENT, EACCES, EMFILE, ENOSPC, EISDIR}; ff.open_errno = e[modn(fi(*f, "e"), 5)]; world.ffaults[path] = ff; }
 	if (const Fault *f = op->fault("io.chunk")) { FileFaults ff; ff.chunk = (int)std::max(1L, fi(*f, "n", 9)); world.ffaults[path] = ff; }
+	bool sol_unopenable = false; if (const Fault *f = op->fault("io.sol_open_fail")) { FileFaults ff; static const int e[] = {ENOENT, EACCES, EMFILE, ENOSPC, EISDIR}; ff.open_errno = e[modn(fi(*f, "e"), 5)]; world.ffaults[sol] = ff; sol_unopenable = true; }
 	world.expected_paths.insert(path); world.expected_paths.insert(sol); if (!wb.empty()) world.expected_paths.insert(wb); if (!rb.empty()) world.expected_paths.insert(rb);
 	bool exists = world.files.count(path) != 0;
 	// a file from the foreign producer that nothing damaged is readable input too, and there the harness knows what the text denotes
@@ -83,7 +86,9 @@ void Exec::op_esolver(Client &c) {
 	  if (trace) for (auto &ln : split(o1 + o2, '\n')) out_line("E   " + ln.substr(0, 200)); }
 	T(strf("  esolver [%s] exists=%d damaged=%d -> %s code=%d sig=%d solfile=%d", line.c_str(), exists, damaged, r.exited ? "exit" : "signal", r.code, r.sig, (int)world.files.count(sol)));
 	signature(strf("esolver:%s:%d%d:%s:%d", info.fmt.c_str(), exists, damaged, r.exited ? "exit" : "sig", r.code != 0));
-	if (!r.exited) { violate("C19", strf("crash:signal%d:%s", r.sig, damaged ? "bad-input" : "good-input"), "esolver was killed by signal " + std::to_string(r.sig) + " running: " + line); return; }
+	if (!r.exited) { violate("C19", strf("crash:signal%d:%s", r.sig, damaged ? "bad-input" : sol_unopenable ? "output-unopenable" : "good-input"), "esolver was killed by signal " + std::to_string(r.sig) + " running: " + line); return; }
+	if (r.code == 77) { violate("C19", std::string("crash:sanitizer:") + (damaged ? "bad-input" : sol_unopenable ? "output-unopenable" : op->i("longsol", 0) ? "long-output-name" : "good-input"), "the sanitizer stopped esolver running: " + line.substr(0, 300)); return; }
+	if (sol_unopenable) { probe(r.code ? "cli.output_unopenable_reported" : "cli.output_unopenable_exit0"); return; }   // nothing more is asked of a run that cannot write its result
 	nontrivial("C19");
 	if (damaged) {
 		// unreadable / malformed input: non-zero exit without crashing; a damaged file the reader still accepts may legitimately be solved
